@@ -412,6 +412,39 @@ class Roles:
         return self._c("remove", find)
 
     @property
+    def bulk_vacate_fns(self):
+        """Slot-map methods other than REMOVE that turn slots vacant: they store the free variant into slot storage (a plain
+        assignment through a `&mut Slot`, or Pin::set) -- a `clear` / `retain` / `take` of the slot map."""
+        def find():
+            occ, free = self.slot_variants
+            try:
+                rem = self.remove_fn.path
+            except AnchorLost:
+                rem = None
+            out = []
+            for b in self.slotmap_methods:
+                if b.path == rem or re.match(re.escape(self.slot_enum[1]) + r"<", b.locals[0] or ""):
+                    continue        # REMOVE itself; constructors (return the map)
+                hit = any(x[2] == free for x in self._pin_set_variant(b))
+                # ... or vacates through REMOVE itself, slot by slot (`for key in 0..len { self.remove(key) }`)
+                if rem is not None and any((fn_name(fn) or "") == rem for _, _, fn in b.calls() if fn):
+                    hit = True
+                fl = self.ctx.flow(b)
+                for bb in range(b.n):
+                    if b.is_cleanup(bb):
+                        continue
+                    for s_ in b.stmts(bb):
+                        if s_["k"] == "assign" and s_["place"]["p"] and any(e["k"] == "deref" for e in s_["place"]["p"]) \
+                                and s_["rv"]["k"] in ("aggregate", "use"):
+                            v = strip_refs(fl.rvalue_expr(s_["rv"], bb))
+                            if v[0] == "agg" and v[1].endswith("::" + free) and self.slot_enum[0] in v[1]:
+                                hit = True
+                if hit:
+                    out.append(b)
+            return out
+        return self._c("bulkvac", find)
+
+    @property
     def accessor_fns(self):
         """slot-map methods returning Option<Pin<&mut F>> (Occupied-only accessor)."""
         def find():
